@@ -5,6 +5,7 @@ structure SelectFact where
   cases : List String
   hasDefault : Bool
   loopDepth : Nat
+  hasTimer : Bool := false     -- some case receives from time.After(...)
 deriving Repr, DecidableEq
 
 end Lnc.Facts
